@@ -16,8 +16,11 @@ from harness.wnenv import fresh_db, base_dir, main_loop, exc_name, JobTimeout, l
 
 def flatten(lex) -> dict:
     """the relational form spec/WnValidate.tla works on (from the loaded lexicon)"""
+    texts = set()
+
     def blank(t):
-        return '' if t.strip() == '' else t
+        texts.add(t)
+        return t
     out = {'id': lex['id'], 'forms': [], 'frames': [], 'entries': [], 'senses': [],
            'synsets': [], 'srels': [], 'ssrels': []}
     for sb in lex.get('frames', []):
@@ -41,6 +44,7 @@ def flatten(lex) -> dict:
         for r in ss.get('relations', []):
             out['ssrels'].append([ss['id'], r['relType'], r['target'],
                                   (r.get('meta') or {}).get('type', '~')])
+    out['blank'] = sorted(t for t in texts if t.strip() == '')
     return out
 
 
